@@ -33,7 +33,7 @@ SNAPS = ['from_tx', 'ctor', 'block', 'txin', 'outpoint', 'txout', 'mfrom_tx', 'm
 
 def bounds(tier):
     return {'depth': 3 if tier == 'quick' else 5, 'max_derived_objects': 2, 'edit_events': EDITS, 'copy_events': SNAPS,
-            'other_events': ['compute (GetTxid, GetHash, hash(), ==)', 'use (4 signature hashes + VerifyScript with a CHECKSIG)']}
+            'other_events': ['fail (every computation on an out-of-range field raises; field restored)', 'compute (GetTxid, GetHash, hash(), ==)', 'use (4 signature hashes + VerifyScript with a CHECKSIG)']}
 
 
 def toggle(field, cur):
@@ -84,6 +84,8 @@ class World:
                     if e in ('vout.pop', 'vout0.nValue', 'vout0.spk', 'vout0=new') and not m['vout']:
                         continue
                     ev.append(('edit', k, e))
+            if kind == 'mtx':
+                ev.append(('fail', k))
             if kind in ('mtx', 'tx'):
                 if len(self.objs) - 1 < max_derived:
                     for s in SNAPS:
@@ -200,8 +202,9 @@ class World:
             elif s == 'deser':
                 new, kind = CTransaction.deserialize(o.serialize()), 'tx'
             elif s == 'block':
-                new, kind = CBlock(nVersion=3, hashPrevBlock=H0, nTime=1, nBits=2, nNonce=3, vtx=[o]), 'block'
-                mc = {'version': 3, 'prev': H0, 'merkle': W.txid(mc), 'time': 1, 'bits': 2, 'nonce': 3, 'vtx': [mc]}
+                # the transaction fills both positions: position 0 is blanked in the witness tree, position 1 is not
+                new, kind = CBlock(nVersion=3, hashPrevBlock=H0, nTime=1, nBits=2, nNonce=3, vtx=[o, o]), 'block'
+                mc = {'version': 3, 'prev': H0, 'merkle': W.merkle_root([W.txid(mc), W.txid(mc)]), 'time': 1, 'bits': 2, 'nonce': 3, 'vtx': [mc, copy.deepcopy(mc)]}
             elif s == 'txin':
                 new, kind, mc = CTxIn.from_txin(o.vin[0]), 'txin', mc['vin'][0]
             elif s == 'mtxin':
@@ -218,6 +221,32 @@ class World:
             self.kinds.append(kind)
             self.models.append(mc)
             self.computed.append(False)
+            return
+        if ev[0] == 'fail':
+            # calls that cannot succeed: a field is pushed out of its wire range for a moment, every computation is attempted
+            # (and must raise), the field is put back.  The object's value is what it was; nothing of the failed calls may
+            # show up in anything computed later, on this or any other object.
+            o, m = self.objs[ev[1]], self.models[ev[1]]
+            for attr, bad in (('nLockTime', 1 << 32), ('nVersion', 1 << 31)):
+                keep = getattr(o, attr)
+                setattr(o, attr, bad)
+                for fn in (o.serialize, o.GetHash, o.GetTxid, o.calc_weight, lambda: hash(o)):
+                    try:
+                        fn()
+                    except Exception:  # noqa
+                        continue
+                    raise Viol('a computation on a transaction with %s=%d (outside the wire range) returned normally' % (attr, bad), 'exception', None)
+                setattr(o, attr, keep)
+            if o.vout and not isinstance(o.vout, tuple):
+                keep = o.vout[-1].nValue
+                o.vout[-1].nValue = 1 << 64
+                for fn in (o.serialize, o.GetHash, o.GetTxid, o.calc_weight):
+                    try:
+                        fn()
+                    except Exception:  # noqa
+                        continue
+                    raise Viol('a computation on a transaction with an output value of 2^64 returned normally', 'exception', None)
+                o.vout[-1].nValue = keep
             return
         if ev[0] == 'compute_hash_first':
             o = self.objs[ev[1]]
@@ -299,6 +328,12 @@ class World:
                 if not isinstance(o.vin, tuple) or not isinstance(o.vout, tuple):
                     raise Viol('%s: immutable transaction holds a mutable input/output list' % what, 'tuple', type(o.vin).__name__)
             if kind == 'block':
+                bm = self.models[k]
+                if tuple(o.vMerkleTree) != tuple(W.merkle_tree([W.txid(t) for t in bm['vtx']])):
+                    raise Viol('%s: merkle tree of the block is not that of its own transactions' % what, None, None)
+                wt = tuple(W.merkle_tree([b'\x00' * 32] + [W.wtxid(t) for t in bm['vtx'][1:]])) if any(W.has_witness(t) for t in bm['vtx']) else ()
+                if tuple(o.vWitnessMerkleTree) != wt:
+                    raise Viol('%s: witness merkle tree of the block is not that of its own transactions' % what, [x.hex()[:16] for x in wt], [bytes(x).hex()[:16] for x in o.vWitnessMerkleTree])
                 if not isinstance(o.vtx, tuple):
                     raise Viol('%s: block holds a mutable transaction list' % what, 'tuple', type(o.vtx).__name__)
                 for t in o.vtx:
